@@ -68,13 +68,38 @@ func SelectWait(cs ...ChanCase) {
 		return
 	}
 	r.point(func() bool { return anyReady(cs) }, "select", true)
-	r.sel = -1
+	r.sel = chooseReady(r, cs)
+}
+
+// chooseReady picks the case a select takes: the only ready one, or - when
+// several are ready, where the Go runtime picks at random - a choice that is
+// part of the schedule (default: the first in source order; every other ready
+// case is an alternative that costs one deviation / preemption).
+func chooseReady(r *Run, cs []ChanCase) int {
+	var ready []int
 	for i, c := range cs {
 		if c.ready() {
-			r.sel = i
-			break
+			ready = append(ready, i)
 		}
 	}
+	switch len(ready) {
+	case 0:
+		return -1
+	case 1:
+		return ready[0]
+	}
+	return ready[r.choose(len(ready))]
+}
+
+// SelectIndex is SelectWait for callers that perform the receive themselves
+// (the reflect.Select shim): it returns the index of the case to take.
+func SelectIndex(cs ...ChanCase) int {
+	r := current.Load()
+	if r == nil {
+		return -1
+	}
+	r.point(func() bool { return anyReady(cs) }, "select", true)
+	return chooseReady(r, cs)
 }
 
 // ChanWait precedes a plain blocking send or receive.
